@@ -1,0 +1,34 @@
+//go:build verif
+
+// Verification hooks (add-only, compiled only with -tags verif). They expose
+// the unexported block map builder to the out-of-tree correspondence harness
+// in /verif; no existing behaviour is changed.
+package signappx
+
+import (
+	"crypto"
+	"io"
+
+	"github.com/sassoftware/relic/v8/lib/zipslicer"
+)
+
+// VerifBlockMapAddFile runs blockMap.AddFile on one zip member and returns
+// the recorded size, the base64 block hashes and whether the member was
+// entered into the block map.
+func VerifBlockMapAddFile(f *zipslicer.File, hash crypto.Hash, raw, cooked io.Writer) (size uint64, hashes []string, listed bool, err error) {
+	var b blockMap
+	if err = b.SetHash(hash); err != nil {
+		return
+	}
+	if err = b.AddFile(f, raw, cooked); err != nil {
+		return
+	}
+	if len(b.File) == 1 {
+		listed = true
+		size = b.File[0].Size
+		for _, bl := range b.File[0].Block {
+			hashes = append(hashes, bl.Hash)
+		}
+	}
+	return
+}
